@@ -11,6 +11,7 @@ import (
 	"strings"
 	"testing"
 	"time"
+	"verifharness/internal/netx"
 
 	"pgregory.net/rapid"
 	"reservoir/metrics"
@@ -58,7 +59,7 @@ var subRaw = ev.Register("raw-exchanges",
 			env.Plain(px.Req{Method: "GET", Host: org.Addr(), Target: "/r", ReqID: "prime"})
 		}
 		before := metrics.Global.Requests.HTTPProxyRequests.Get() + metrics.Global.Requests.HTTPSProxyRequests.Get()
-		conn, err := net.DialTimeout("tcp", env.Addr(), 3*time.Second)
+		conn, err := netx.Dial(env.Addr(), 3*time.Second)
 		if err != nil {
 			return ev.Failf("raw.harness", "%v", err)
 		}
